@@ -87,7 +87,13 @@ StopLocked == /\ IF isComplete THEN (sSend' = FALSE /\ UNCHANGED isCancelled)
               /\ sPc' = "sendS"
 
 \* ---------------- node run() exit after the connection is gone
-NodeStopLock == /\ sPc = "idle" /\ nOnStop /\ readerClosed
+\* The node reads blockOnStop under its own lock, releases that lock and only then calls it: a Cancel (of the
+\* manager, or of Run after an interrupt) can run to completion in between, so downloader.Stop can be called
+\* after downloader.Cancel.  Two steps.
+NodeStopRead == /\ sPc = "idle" /\ nOnStop /\ readerClosed
+                /\ sPc' = "read"
+                /\ UNCHANGED <<started, complete, isCancelled, isStarted, isComplete, nReq, nReader, nHandler, nOnStop, readerClosed, runPc, runResult, hPc, hTx, cPc, cSendS, cSendC, sSend, rcPc, rcSendS, rcSendC, interrupted>>
+NodeStopLock == /\ sPc = "read"
                 /\ StopLocked
                 /\ UNCHANGED <<started, complete, isStarted, isComplete, nReq, nReader, nHandler, nOnStop, readerClosed, runPc, runResult, hPc, hTx, cPc, cSendS, cSendC, rcPc, rcSendS, rcSendC, interrupted>>
 NodeStopSendS == /\ sPc = "sendS"
@@ -116,9 +122,9 @@ HReadCount == /\ hPc = "readCount"
 \* cancelled or run() already did
 HCallStop == /\ hPc = "callStop"
              /\ IF nOnStop /\ sPc = "idle"
-                THEN StopLocked /\ hPc' = "waitStop"
-                ELSE hPc' = "completeBlock" /\ UNCHANGED <<isCancelled, sPc, sSend>>
-             /\ UNCHANGED <<started, complete, isStarted, isComplete, nReq, nReader, nHandler, nOnStop, readerClosed, runPc, runResult, hTx, cPc, cSendS, cSendC, rcPc, rcSendS, rcSendC, interrupted>>
+                THEN sPc' = "read" /\ hPc' = "waitStop"            \* blockOnStop read under the lock; called next
+                ELSE hPc' = "completeBlock" /\ UNCHANGED sPc
+             /\ UNCHANGED <<started, complete, isCancelled, isStarted, isComplete, nReq, nReader, nHandler, nOnStop, readerClosed, runPc, runResult, hTx, cPc, cSendS, cSendC, sSend, rcPc, rcSendS, rcSendC, interrupted>>
 HWaitStop == /\ hPc = "waitStop" /\ sPc = "done" /\ hPc' = "completeBlock"
              /\ UNCHANGED <<started, complete, isCancelled, isStarted, isComplete, nReq, nReader, nHandler, nOnStop, readerClosed, runPc, runResult, hTx, cPc, cSendS, cSendC, sPc, sSend, rcPc, rcSendS, rcSendC, interrupted>>
 HSendStarted == /\ hPc = "sendStarted" /\ Send(started, "hash")
@@ -173,7 +179,7 @@ Shutdown == /\ ~interrupted /\ interrupted' = TRUE
 
 Handler == HArrive \/ HReadCount \/ HCallStop \/ HWaitStop \/ HSendStarted \/ HCheckCancel \/ HTx \/ HSendCancelled \/ HSendOk \/ HCompleteBlock
 Mgr == MgrCancelLock \/ MgrCancelSendS \/ MgrCancelSendC \/ MgrStopThread
-NodeStop == NodeStopLock \/ NodeStopSendS \/ NodeStopSendC
+NodeStop == NodeStopRead \/ NodeStopLock \/ NodeStopSendS \/ NodeStopSendC
 Run == RunRecvStarted \/ RunRecvComplete \/ RunInterrupt \/ RunCancelLock \/ RunCancelSendS \/ RunCancelSendC
 Next == Handler \/ Mgr \/ NodeStop \/ Run \/ Shutdown \/ ConnLost
 
